@@ -159,10 +159,11 @@ pub fn dist_stmt(rng: &mut Rng, db: &[Table]) -> GenQuery {
     }
     // ... and an outer join whose null-supplying side is itself a join
     if db.len() >= 2 && rng.chance(1, 12) {
-        let (a, b) = (&db[0], &db[1]);
+        // the preserved side is the smaller table, the inner join's right input the larger one
+        let (a, b) = if db[0].rows.len() <= db[1].rows.len() { (&db[0], &db[1]) } else { (&db[1], &db[0]) };
         let jt = *rng.pick(&["LEFT", "LEFT", "FULL"]);
         let core = format!(
-            "SELECT d.id AS c0, x.k AS c1, x.w AS c2 FROM {a} AS d {jt} JOIN (SELECT l.i0 AS k, f.i1 AS w FROM {b} AS l JOIN {a} AS f ON l.id = f.id) AS x ON d.id = x.k",
+            "SELECT d.id AS c0, x.k AS c1, x.w AS c2 FROM {a} AS d {jt} JOIN (SELECT l.i0 AS k, f.i1 AS w FROM {a} AS l JOIN {b} AS f ON l.id = f.id) AS x ON d.id = x.k",
             a = a.name,
             b = b.name,
             jt = jt
